@@ -1,5 +1,6 @@
 CONSTANTS
-  MaxOps = 4
+  MaxOps = 3
+  MaxReq = 2
   Free = TRUE
 SPECIFICATION Spec
 INVARIANT Emit
